@@ -65,7 +65,7 @@ class C08(Check):
                    'ended the scope on that connection',
                    'ground truth of the cache = parameter callbacks (Module.addCallback), invoked by frappy inside '
                    'the module update lock; a message is matched to a cache state by its (value, timestamp)']
-    PROBES = ('c08.client-stalled', 'net.send-timeout', 'c08.activate-during-updates', 'c08.deactivate', 'c08.idn', 'c08.close', 'c08.param-scope',
+    PROBES = ('c08.client-stalled', 'fault.parameter-callback-raised', 'net.send-timeout', 'c08.activate-during-updates', 'c08.deactivate', 'c08.idn', 'c08.close', 'c08.param-scope',
               'c08.module-scope')
 
     def gen_case(self, rng, tier):
@@ -134,6 +134,16 @@ class C08(Check):
                  'seg_bias': rng.choice([1.0, 0.7, 0.3]), 'lat_bias': rng.choice([1.0, 0.7, 0.4]),
                  'specs': specs, 'scripts': scripts, 'nconn': nconn, 'updaters': updaters,
                  'settle': rng.choice([1.0, 3.0])}
+        if rng.random() < 0.25:
+            # parameter callbacks of the application (plain functions, partial objects, callable instances) which fail
+            # now and then: ignored by frappy, the update goes out all the same
+            shape['cb_faults'] = {}
+            for s_ in specs:
+                for p_ in s_['params']:
+                    if rng.random() < 0.5:
+                        shape['cb_faults'][f'{s_["name"]}.{p_["name"]}'] = {
+                            'exc': rng.choice(['OSError', 'KeyError', 'ValueError', 'TypeError']),
+                            'every': rng.choice([1, 2, 3]), 'style': rng.choice(['function', 'partial', 'object'])}
         if rng.random() < 0.15:
             # focus: connections with specific scopes come and go at the same instant - a closing connection is
             # removed by its own handler thread while other connections subscribe to event names not seen before
@@ -211,6 +221,8 @@ class C08(Check):
         node = nodeworld.Node(world, 'n', shape['specs'], drv)
         ctx['cleanup'] = [node.forget]
         node.watch_cache()
+        if shape.get('cb_faults'):
+            node.add_flaky_callbacks(shape['cb_faults'])
         ctx['initial'] = {k: (sim.next_seq(), v) for k, v in node.cache().items()}
         ctx['history'] = node.history
         conns = ctx['conns'] = []
